@@ -4,3 +4,5 @@ import AbraModel.Drv.Util
 import AbraModel.Drv.I64
 import AbraModel.Arena
 import AbraModel.Drv.Arena
+import AbraModel.Lib.Sort
+import AbraModel.Drv.Sort
